@@ -410,6 +410,11 @@ def directed_c01():
     D.append(("inner_while_first_stmt_reentered", [("decl", "j", "0"), ("for", ("decl", "i", "0"), "i < n", ("inc", "i"), [("for", None, "j < 2", None, [Y("i*10 + j"), ("inc", "j")]), ("assign", "j", "0")])]))
     D.append(("yield_post_body_ends_all_yielding_if", [("decl", "i", "0"), ("for", None, "i < n", Y("i + 100"), [("inc", "i"), ("if", "g1", [Y("i + 1")], [Y("i + 2")])])]))
     D.append(("yield_post_body_ends_yielding_switch", [("decl", "i", "0"), ("for", None, "i < n", Y("i + 100"), [("inc", "i"), ("switch", None, "i&1", [("0", [Y("i + 1")])], [Y("i + 2")])])]))
+    D.append(("assign_init_reused_counter", [("decl", "i", "0"), ("for", ("assign", "i", "0"), "i < n", ("inc", "i"), [Y("i + 1")]), ("for", ("assign", "i", "0"), "i < n", ("inc", "i"), [Y("i + 10")])]))
+    D.append(("assign_init_inner_reentered", [("decl", "j", "0"), ("for", ("decl", "i", "0"), "i < n", ("inc", "i"), [("for", ("assign", "j", "0"), "j < 2", ("inc", "j"), [Y("i*10 + j")])])]))
+    D.append(("assign_init_countdown", [("decl", "i", "0"), ("for", ("assign", "i", "n"), "i > 0", ("raw", "i--"), [Y("i + a")]), Y("i + 5")]))
+    D.append(("call_init", [("decl", "i", "0"), ("for", E(7), "i < n", ("inc", "i"), [Y("i + 1")]), E(8)]))
+    D.append(("assign_init_yield_post", [("decl", "i", "5"), ("for", ("assign", "i", "0"), "i < n", Y("i + 100"), [("inc", "i"), E(1)])]))
     D.append(("yielding_switch_ends_loop", [("for", ("decl", "i", "0"), "i < n", ("inc", "i"), [("switch", None, "i&1", [("0", [Y("i + 1")])], None)]), Y("a + 2")]))
     return D
 
@@ -845,7 +850,7 @@ CLAIMED["C04"] = plan_C04
 def plan_C06(ctx):
     def build(corp):
         rng = random.Random(ctx.seed * 613 + 6)
-        ps = gen.c06_programs(rng, ctx.q(22, 150))
+        ps = gen.c06_programs(rng, ctx.q(16, 110))
         for p in ps:
             corp.add(p)
         return {"consumer_programs": len(ps), "shapes": gen.C06_SHAPES,
@@ -868,6 +873,7 @@ func (c cnt@) Get() int   { return c.v }
 func (c *cnt@) Inc() int  { c.v++; return c.v }
 func id@[T any](x T) T    { return x }
 func twice@(x int) int    { return x * 2 }
+func sub@(x, y int) int   { return x - y }
 """
 
 
@@ -885,6 +891,8 @@ def eta_programs():
     P.append(("generic_inferred", [("raw", "idf := func(x int) int { return id@(x) }"), Y("idf(a) + 1")]))
     P.append(("generic_explicit", [("raw", "idf := func(x int) int { return id@[int](x) }"), Y("idf(a) + 1")]))
     P.append(("plain_func", [("raw", "tw := func(x int) int { return twice@(x) }"), Y("tw(a) + 1"), Y("tw(b)")]))
+    P.append(("permuted_params", [("raw", "flip := func(x, y int) int { return sub@(y, x) }"), Y("flip(a, b)"), Y("flip(b, 1)")]))
+    P.append(("duplicated_params", [("raw", "dup := func(x, y int) int { return sub@(y, y) }\nk := func(x, y int) int { return twice@(y) }"), Y("dup(a, b) + 1"), Y("k(a, b)")]))
     P.append(("param_shadow", [("raw", "x := a\nf := func(y int) int { return twice@(x) }"), Y("f(b)"), ("raw", "x = b"), Y("f(a)")]))
     P.append(("funcvar_in_loop", [("raw", "h := func(x int) int { return x + 1 }"), ("for", ("decl", "i", "0"), "i < n", ("inc", "i"), [("raw", "f := func(x int) int { return h(x) }\nh = func(x int) int { return x + 10*(i+1) }"), Y("f(a)")])]))
     out = []
